@@ -85,6 +85,26 @@ func Load(repo string) (*Program, error) {
 		}
 		p.Funcs[k] = f
 	}
+	// methods that nothing references are not "reachable" for AllFunctions: index them explicitly
+	for _, sp := range p.Pkgs {
+		for _, m := range sp.Members {
+			t, ok := m.(*ssa.Type)
+			if !ok {
+				continue
+			}
+			n, ok := t.Type().(*types.Named)
+			if !ok {
+				continue
+			}
+			for i := 0; i < n.NumMethods(); i++ {
+				if f := prog.FuncValue(n.Method(i)); f != nil {
+					if _, dup := p.Funcs[FuncKey(f)]; !dup {
+						p.Funcs[FuncKey(f)] = f
+					}
+				}
+			}
+		}
+	}
 	p.buildTagTable()
 	return p, nil
 }
